@@ -181,7 +181,7 @@ func (e *ExecutorV3) RunTx(context state.Interface, rawTx []byte, rewardPool *bi
 	priceCommission := abcTypes.EventAttribute{Key: []byte("tx.commission_price"), Value: []byte(price.String())}
 
 	if price.Sign() != 0 {
-		if !commissions.Coin.IsBaseCoin() {
+		if !commissions.Coin.IsBaseCoin() && price.Sign() == 1 {
 			var resp *Response
 			resp, price, _ = CheckSwap(checkState.Swap().GetSwapper(commissions.Coin, types.GetBaseCoinID()), checkState.Coins().GetCoin(commissions.Coin), checkState.Coins().GetCoin(0), price, big.NewInt(0), false)
 			if resp != nil {
